@@ -234,6 +234,7 @@ func (e *Exec) runPath(fn *ssa.Function) {
 	kind := "done"
 	msg := ""
 	func() {
+		defer e.killThreads()
 		defer func() {
 			if r := recover(); r != nil {
 				if pe, ok := r.(pathEnd); ok {
